@@ -312,6 +312,39 @@ func runC13(src sim.Source, o Opts) *Result {
 		cc.Close()
 		res.Checks += 3
 	}
+	// a second (and third) router built from the very same option values: options configure the router they are applied
+	// to and carry nothing over from one application to the next
+	if !useDefault && src.Intn("samevalues", 3) == 2 {
+		res.inc("routers_built_again_from_the_same_option_values")
+		for k := 2; k <= 3 && !res.failed(); k++ {
+			w2, err := world.Build(cfg, opts...)
+			if err != nil {
+				res.fail("C13/trace", "router #%d built from the same option values: %v", k, err)
+				break
+			}
+			r1 := routes[0]
+			if _, err := w2.R.Handle(r1.Method, r1.Pattern, world.Handler(r1.Tag), world.FoxOpts(r1.Tag, world.RouteOpt{TS: routeTS})...); err != nil {
+				res.Trouble = "second router: " + err.Error()
+				return res
+			}
+			for _, q := range []struct {
+				p    world.Probe
+				kind model.Kind
+			}{{world.Probe{Method: "GET", Path: strings.Replace(r1.Pattern, "{x}", "v", 1)}, model.KRoute}, {world.Probe{Method: "GET", Path: "/nothing/here"}, model.KNoRoute},
+				{world.Probe{Method: "POST", Path: strings.Replace(r1.Pattern, "{x}", "v", 1)}, model.KNoMethod}, {world.Probe{Method: "OPTIONS", Path: strings.Replace(r1.Pattern, "{x}", "v", 1)}, model.KOptions}} {
+				res.Checks++
+				obs := w2.Serve(q.p, "", "", nil)
+				want := expectedTrace(glob, q.kind, nil)
+				if obs.Kind != q.kind || fmt.Sprint(obs.Log.MW) != fmt.Sprint(want) {
+					res.fail("C13/trace", "router #%d built from the same option values: %s %s answered by %s with middleware %v, expected %s with %v (global %v)", k, q.p.Method, q.p.Path, obs.Kind, obs.Log.MW, q.kind, want, glob)
+					break
+				}
+			}
+		}
+		if res.failed() {
+			return res
+		}
+	}
 	// Update replaces the route-specific middleware
 	{
 		nextMW++
